@@ -8,6 +8,9 @@ From RM Require Import C18.Check C18.Proofs C18.ReadProofs Gen.ContextTables.
 From RM Require C18.Driver.
 Open Scope Z_scope.
 
+(* membership in a concrete list, by walking it (no normalisation of the whole list of tables) *)
+Ltac in_list := repeat (first [left; reflexivity | right]).
+
 (* the generated tables pass the finite checker (the one computational obligation) *)
 Theorem c18_tables_checked : forall c, In c all_contexts -> diagnose c = [].
 Proof.
@@ -436,6 +439,37 @@ Proof.
   split; [exact (read_flags_exclusive _ _ _ _ OK) | exact (read_unknown read_arms read_cpu_mask read_cpu_all_bits)].
 Qed.
 Print Assumptions c18_read_dispatch.
+(* ... and WHICH architecture selects which type: the PROCESSOR_ARCHITECTURE_* numbers of WinNT.h and Breakpad's extensions
+   (written out here, not taken from the source) select exactly these variants, and every other number - ALL other
+   integers - has no arm (UnknownCpuContext) *)
+Definition arch_variants : list (Z * name) :=
+  [(0, [88; 56; 54]); (10, [88; 56; 54]);                       (* INTEL, IA32_ON_WIN64 -> X86 *)
+   (9, [65; 109; 100; 54; 52]);                                  (* AMD64 -> Amd64 *)
+   (3, [80; 112; 99]); (32770, [80; 112; 99; 54; 52]);           (* PPC -> Ppc, PPC64 (0x8002) -> Ppc64 *)
+   (32769, [83; 112; 97; 114; 99]);                              (* SPARC (0x8001) -> Sparc *)
+   (5, [65; 114; 109]); (12, [65; 114; 109; 54; 52]);            (* ARM -> Arm, ARM64 -> Arm64 *)
+   (32771, [79; 108; 100; 65; 114; 109; 54; 52]);                (* ARM64_OLD (0x8003) -> OldArm64 *)
+   (1, [77; 105; 112; 115])].                                    (* MIPS -> Mips *)
+Theorem c18_read_architectures :
+  (forall arch v, In (arch, v) arch_variants ->
+     exists a, find_read_arm read_arms arch = Some a /\ ra_variant a = v) /\
+  (forall arch, ~ In arch (map fst arch_variants) -> find_read_arm read_arms arch = None).
+Proof.
+  split.
+  - assert (H : forallb (fun p => match find_read_arm read_arms (fst p) with
+                                  | Some a => name_eqb (ra_variant a) (snd p) | None => false end) arch_variants = true)
+      by (vm_compute; reflexivity).
+    intros arch v Hin. rewrite forallb_forall in H. specialize (H _ Hin). cbn [fst snd] in H.
+    destruct (find_read_arm read_arms arch) as [a|]; [|discriminate]. exists a. split; [reflexivity|].
+    apply name_eqb_eq. exact H.
+  - intros arch Hn. destruct (find_read_arm read_arms arch) as [a|] eqn:E; [|reflexivity]. exfalso. apply Hn.
+    destruct (find_read_arm_In _ _ _ E) as [Ha Hi].
+    assert (H : forallb (fun a => forallb (fun x => existsb (Z.eqb x) (map fst arch_variants)) (ra_archs a)) read_arms = true)
+      by (vm_compute; reflexivity).
+    rewrite forallb_forall in H. specialize (H a Ha). rewrite forallb_forall in H. specialize (H arch Hi).
+    apply existsb_exists in H. destruct H as [y [Hy Ey]]. apply Z.eqb_eq in Ey. subst y. exact Hy.
+Qed.
+Print Assumptions c18_read_architectures.
 (* x86: architecture 0 (INTEL) and 10 (IA32_ON_WIN64) with CONTEXT_X86 | CONTROL | XSTATE bit in a 716-byte buffer -> X86;
    one byte short, or AMD64's constant -> ReadFailure; architecture 0x8004 (MIPS64, known to from_u16 but without an arm)
    and 77 -> UnknownCpuContext *)
@@ -506,7 +540,7 @@ Example c18_nonvacuous_arm :
               get_register ctx_arm rf1 n_sp (VSome []) = Ret None /\
               get_always ctx_arm rf1 [114; 49; 50] = Ret 5.
 Proof.
-  cbv zeta. split; [vm_compute; tauto|]. split; [vm_compute; tauto|]. split; [vm_compute; reflexivity|].
+  cbv zeta. split; [in_list|]. split; [vm_compute; tauto|]. split; [vm_compute; reflexivity|].
   eexists. split; [vm_compute; reflexivity|]. repeat split; vm_compute; reflexivity.
 Qed.
 (* c18_exact_names_only / c18_case_sensitive: "RIP" vs "rip" on AMD64 *)
@@ -516,7 +550,7 @@ Example c18_nonvacuous_case :
   memoize ctx_amd64 n_RIP = None /\ get_register ctx_amd64 (fun _ _ => 7) n_RIP VAll = Ret None /\
   get_register ctx_amd64 (fun _ _ => 7) n_rip VAll = Ret (Some 7).
 Proof.
-  split; [vm_compute; tauto|]. split; [vm_compute; tauto|]. split; [discriminate|].
+  split; [in_list|]. split; [vm_compute; tauto|]. split; [discriminate|].
   split; [reflexivity|]. split; [vm_compute; intuition discriminate|].
   repeat split; vm_compute; reflexivity.
 Qed.
@@ -594,5 +628,5 @@ Theorem c18_unknown_member_known_witness :
   In ctx_x86 all_contexts /\ known_unknown_member ctx_x86 [foo] = true /\ memoize ctx_x86 foo = None /\
   get_register ctx_x86 rf foo (VSome [foo]) = Panic 1 /\
   cpu_valid_registers ctx_x86 rf (VSome [foo]) = Panic 1.
-Proof. cbv zeta. split; [vm_compute; tauto|]. repeat split; vm_compute; reflexivity. Qed.
+Proof. cbv zeta. split; [in_list|]. repeat split; vm_compute; reflexivity. Qed.
 Print Assumptions c18_unknown_member_known_witness.
